@@ -1,10 +1,161 @@
 (** Property C18 - the sampler returns an admissible token, deterministically under a seed.
-    Theorems only; every proof is a reference to Proofs.v. *)
-From Coq Require Import ZArith List Bool SpecFloat.
-From V Require Import Sample.F32 Sample.Model Sample.Proofs.
+
+    Theorems only; every proof is a reference to Proofs.v / F32Facts.v.  The model (Model.v) is the code of
+    sample/samplers.go + sample/transforms.go with fixes/C18-softmax-overflow.patch applied, over exact binary32
+    arithmetic (Coq's SpecFloat at precision 24, emax 128).  Quantifiers:
+      - logits: every list of binary32 *numbers* ([Forall num]: any finite value, +-0, subnormals, +-Inf; no NaN) -
+        by [C18_every_bit_pattern_valid] every 32-bit pattern that is not a NaN is such a number;
+      - temperature / top-p / min-p: every binary32 number, the temperature not infinite; top-k: every integer;
+      - the draw r = rng.Float32(): every number in [0,1];
+      - exp: any function satisfying [exp_oracle_ok] (tested against math.Exp on every run of the check);
+      - topK: *any* arrangement the sort / heap may produce among equal values ([legal_topk]).
+    [Print Assumptions] shows the real-number axioms of the Coq standard library (used through Flocq in F32Facts.v). *)
+From Coq Require Import ZArith List Bool SpecFloat Reals.
+From V Require Import Sample.F32 Sample.Model Sample.F32Facts Sample.Proofs.
 Import ListNotations.
 Open Scope Z_scope.
 
-Theorem C18_greedy_in_list : forall l mx, In (greedy_from mx l) (mx :: l).
-Proof. exact greedy_from_In. Qed.
-Print Assumptions C18_greedy_in_list.
+(** what the theorems assume of  x |-> float32(math.Exp(float64(x))) *)
+Definition exp_oracle_ok (E : sf -> sf) : Prop :=
+  (forall x, num x -> (rk x <= 0)%R -> num (E x) /\ (0 <= rk (E x) <= 1)%R) /\
+  (forall x, is_zero x = true -> E x = fone) /\
+  is_zero (E ninf) = true /\
+  is_nan (E fnan) = true.
+
+(** ** every float32 bit pattern is a valid datum of the model's carrier *)
+Theorem C18_every_bit_pattern_valid : forall b : Z, valid (f32_of_bits b) = true.
+Proof. exact f32_of_bits_valid. Qed.
+Print Assumptions C18_every_bit_pattern_valid.
+
+(** ** a token, inside the vocabulary, whose logit is not -Inf - whenever some logit is not -Inf (in particular
+    whenever some logit is finite), for every temperature (zero or not), top-k, top-p, min-p and draw *)
+Theorem C18_in_vocab_and_admissible : forall E, exp_oracle_ok E ->
+  forall temp k topp minp logits r,
+  params_ok temp topp minp -> draw_ok r -> Forall num logits ->
+  (exists x, In x logits /\ x <> ninf) ->
+  exists a v, Sample E (new_sampler temp k topp minp) logits r = Tok a /\
+    0 <= tid a < Z.of_nat (length logits) /\ nth_error logits (Z.to_nat (tid a)) = Some v /\ v <> ninf.
+Proof. intros E (H1 & H2 & H3 & _). exact (Sample_admissible E H1 H2 H3). Qed.
+Print Assumptions C18_in_vocab_and_admissible.
+
+(** ** temperature zero (after NewSampler's clamp: every temperature <= 0): a highest-logit token *)
+Theorem C18_greedy_max : forall E temp k topp minp logits r,
+  Forall num logits -> logits <> [] ->
+  feq (p_temp (new_sampler temp k topp minp)) fzero = true ->
+  exists a, Sample E (new_sampler temp k topp minp) logits r = Tok a /\
+    0 <= tid a < Z.of_nat (length logits) /\ nth_error logits (Z.to_nat (tid a)) = Some (tv a) /\
+    forall x, In x logits -> flt (tv a) x = false.
+Proof. exact Sample_greedy. Qed.
+Print Assumptions C18_greedy_max.
+
+Theorem C18_temperature_zero_iff : forall temp k topp minp, num temp ->
+  (feq (p_temp (new_sampler temp k topp minp)) fzero = true <-> (rk temp <= 0)%R).
+Proof. intros temp k topp minp H. exact (temp_zero_iff temp H). Qed.
+Print Assumptions C18_temperature_zero_iff.
+
+(** ** temperature > 0: the returned token belongs to the set the filters define.  For *any* legal topK result S
+    (S = the first [eff_k] tokens of a descending arrangement of all tokens): the returned token is the token at some
+    position i of S (top-k), its probability is not below min-p times the largest probability (min-p), and - unless
+    top-p is 1 - every cumulative probability strictly before it does not exceed top-p (top-p prefix), all computed
+    in binary32 exactly as the code does; and it is in the vocabulary with a logit that is not -Inf *)
+Theorem C18_in_filter_set : forall E, exp_oracle_ok E ->
+  forall temp k topp minp logits r S,
+  params_ok temp topp minp -> draw_ok r -> Forall num logits ->
+  (exists x, In x logits /\ x <> ninf) ->
+  let pr := new_sampler temp k topp minp in
+  feq (p_temp pr) fzero = false ->
+  legal_topk (enumerate 0 logits) k S ->
+  let probs := softmax E (temperature S (p_temp pr)) in
+  exists i t a, nth_error S i = Some t /\ after_topk E pr S r = Tok a /\ tid a = tid t /\
+    0 <= tid a < Z.of_nat (length logits) /\ nth_error logits (Z.to_nat (tid a)) = Some (tv t) /\ tv t <> ninf /\
+    flt (nthv probs i) (fmul (nthv probs 0) (p_minp pr)) = false /\
+    (feq (p_topp pr) fone = false -> forall j, (j < i)%nat -> fgt (psum fzero probs j) (p_topp pr) = false).
+Proof. intros E (H1 & H2 & H3 & _). exact (after_topk_legal E H1 H2 H3). Qed.
+Print Assumptions C18_in_filter_set.
+
+(** the model's own topK is a legal one (so [Sample] is an instance of the theorem above) ... *)
+Theorem C18_model_topk_legal : forall ts k, numl ts -> legal_topk ts k (topK ts k).
+Proof. exact topK_legal. Qed.
+Print Assumptions C18_model_topk_legal.
+
+(** ... and what "legal" means for the tokens left out: none of them is larger than a token that was kept *)
+Theorem C18_topk_set : forall ts k S, numl ts -> legal_topk ts k S ->
+  (length S <= eff_k (length ts) k)%nat /\
+  exists rest, Permutation.Permutation (S ++ rest) ts /\
+    forall s t, In s S -> In t rest -> flt (tv s) (tv t) = false.
+Proof.
+  intros ts k S H L. split; [|exact (legal_rest ts k S H L)].
+  destruct L as (L & _ & _ & ->). apply firstn_le_length.
+Qed.
+Print Assumptions C18_topk_set.
+
+(** ** reproducibility: the results of a stream of calls are a function of the parameters, the logit stream and the
+    draws the generator delivered (exactly one per call unless greedy or empty); two samplers whose generators
+    deliver the same draws - same seed - return the same sequence *)
+Theorem C18_deterministic : forall E pr stream rs1 rs2,
+  firstn (ndraws pr stream) rs1 = firstn (ndraws pr stream) rs2 ->
+  (ndraws pr stream <= length rs1)%nat -> (ndraws pr stream <= length rs2)%nat ->
+  Sample_stream E pr stream rs1 = Sample_stream E pr stream rs2.
+Proof. exact Sample_stream_draws. Qed.
+Print Assumptions C18_deterministic.
+
+(** ** the NaN guard: when every logit is -Inf (everything masked) Sample reports the error *)
+Theorem C18_all_masked_is_error : forall E, exp_oracle_ok E ->
+  forall temp k topp minp logits r,
+  params_ok temp topp minp -> logits <> [] -> Forall (fun x => x = ninf) logits ->
+  feq (p_temp (new_sampler temp k topp minp)) fzero = false ->
+  Sample E (new_sampler temp k topp minp) logits r = ErrNaN.
+Proof. intros E (_ & _ & _ & H4). exact (Sample_all_masked E H4). Qed.
+Print Assumptions C18_all_masked_is_error.
+
+(** ** bounds safety of the final lookup: no index is ever out of range *)
+Theorem C18_no_panic : forall E, exp_oracle_ok E ->
+  forall temp k topp minp logits r,
+  params_ok temp topp minp -> draw_ok r -> Forall num logits ->
+  Sample E (new_sampler temp k topp minp) logits r <> Panic.
+Proof. intros E (H1 & H2 & H3 & H4). exact (Sample_no_panic E H1 H2 H3 H4). Qed.
+Print Assumptions C18_no_panic.
+
+(** * Non-vacuity: the hypotheses are satisfiable, and the model computes *)
+(** an oracle meeting [exp_oracle_ok] (a step function; the real exp is tested against the hypotheses by the check) *)
+Definition E0 (x : sf) : sf := if is_nan x then fnan else if is_zero x then fone else fzero.
+Example exp_oracle_ok_E0 : exp_oracle_ok E0.
+Proof.
+  repeat split.
+  - unfold E0. destruct H as [_ ->]. destruct (is_zero x); [apply num_fone|apply num_fzero].
+  - unfold E0. destruct H as [_ ->]. destruct (is_zero x); easy.
+  - unfold E0. destruct H as [_ ->]. destruct (is_zero x); [rewrite rk_fone|rewrite rk_fzero]; apply Rle_refl || apply Rle_0_1.
+  - unfold E0. destruct H as [_ ->]. destruct (is_zero x); [rewrite rk_fone|rewrite rk_fzero]; apply Rle_refl || apply Rle_0_1.
+  - intros x H. unfold E0. rewrite H. now destruct x.
+Qed.
+
+(** temperature 0.8, top-p 0.9, min-p 0.05, draw 0.5, logits [1.0; 2.0; -Inf; 0.5] (bit patterns as the harness ships them) *)
+Definition ex_temp := f32_of_bits 1061997773.
+Definition ex_topp := f32_of_bits 1063675494.
+Definition ex_minp := f32_of_bits 1028443341.
+Definition ex_r := f32_of_bits 1056964608.
+Definition ex_logits := map f32_of_bits [1065353216; 1073741824; 4286578688; 1056964608].
+
+Example ex_params_ok : params_ok ex_temp ex_topp ex_minp.
+Proof. repeat split. Qed.
+Example ex_draw_ok : draw_ok ex_r.
+Proof.
+  split; [now split|]. change (rk ex_r) with (Defs.F2R (Defs.Float Zaux.radix2 8388608 (-24))).
+  unfold Defs.F2R. cbn. split; apply Rmult_le_reg_r with (r := 16777216%R); try apply IZR_lt; try reflexivity;
+    rewrite ?Rmult_0_l, ?Rmult_1_l, Rmult_assoc, Rinv_l, Rmult_1_r; try apply IZR_le; try easy; apply not_0_IZR; easy.
+Qed.
+Example ex_logits_ok : Forall num ex_logits /\ (exists x, In x ex_logits /\ x <> ninf).
+Proof. split; [repeat constructor|]. exists (f32_of_bits 1065353216). split; [now left|easy]. Qed.
+Example ex_runs : exists a, Sample E0 (new_sampler ex_temp 3 ex_topp ex_minp) ex_logits ex_r = Tok a /\ tid a = 1.
+Proof. vm_compute. eexists. split; reflexivity. Qed.
+Example ex_not_greedy : feq (p_temp (new_sampler ex_temp 3 ex_topp ex_minp)) fzero = false.
+Proof. reflexivity. Qed.
+Example ex_greedy : feq (p_temp (new_sampler (f32_of_bits 3212836864) 3 ex_topp ex_minp)) fzero = true.   (* temperature -1 *)
+Proof. reflexivity. Qed.
+(** the repaired overflow cases: logits [3e38; 0] and [-3e38] at temperature 0.5, [+Inf; 0] at temperature 1 *)
+Example ex_overflow_pos : exists a, Sample E0 (new_sampler (f32_of_bits 1056964608) 0 fone fzero) (map f32_of_bits [2137108966; 0]) ex_r = Tok a /\ tid a = 0.
+Proof. vm_compute. eexists. split; reflexivity. Qed.
+Example ex_overflow_neg : exists a, Sample E0 (new_sampler (f32_of_bits 1056964608) 0 fone fzero) (map f32_of_bits [4284592614]) ex_r = Tok a /\ tid a = 0.
+Proof. vm_compute. eexists. split; reflexivity. Qed.
+Example ex_pos_inf : exists a, Sample E0 (new_sampler fone 0 fone fzero) [pinf; fzero] ex_r = Tok a /\ tid a = 0.
+Proof. vm_compute. eexists. split; reflexivity. Qed.
